@@ -40,6 +40,23 @@ def with_hb(jobs, share=0.3):
     return out
 
 
+def with_gcc(jobs, share=0.25):
+    """Compiler diversity: a twin of every main job built with g++'s -fsanitize=thread
+    instrumentation (same ABI, same runtime).  Found necessary when a seeded change
+    (`new T{x}` vs `new T(x)`) turned out to change behaviour under g++ only (CWG 2137)."""
+    out = list(jobs)
+    for j in jobs:
+        if j["params"].get("races") or j.get("cxx"):
+            continue
+        t = {k: (dict(v) if isinstance(v, dict) else v) for k, v in j.items()}
+        t["name"] = j["name"] + ".gcc"
+        t["cxx"] = "g++"
+        t["quick"] = max(1000, int(j["quick"] * share))
+        t["thorough"] = max(1000, int(j["thorough"] * share))
+        out.append(t)
+    return out
+
+
 def wrappers(mode, names, quick, thorough, **kw):
     return [J("%s.%s" % (n, mode), "wl_" + n, quick, thorough, mode=mode, **kw) for n in names]
 
@@ -128,6 +145,8 @@ PROPS_RAW = {
 PROPS = dict(PROPS_RAW)
 for _p in ("C01", "C02", "C04", "C05", "C06", "C09", "C10", "C11", "C12", "C13", "C15"):
     PROPS[_p] = dict(PROPS_RAW[_p], jobs=with_hb(PROPS_RAW[_p]["jobs"]))
+for _p in list(PROPS):
+    PROPS[_p] = dict(PROPS[_p], jobs=with_gcc(PROPS[_p]["jobs"]))
 
 
 def _t(level, note, technique):
